@@ -32,6 +32,7 @@ from ._ekobox import explore, cleanup_markers, symarr, prove_all_zero, prove_con
 from symx.solver import prove_zero, prove_rel
 from symx.val import SymbolicEscape
 from symx import harness as H
+from . import C43 as A  # stand-ins shared with the apply harness: Elem, SymPDF (scale-dependent), content-addressed FakeDispatcher
 
 MOD = "harness.C45"
 PIDS = [22, -6, -5, -4, -3, -2, -1, 21, 1, 2, 3, 4, 5, 6]
@@ -91,6 +92,7 @@ def _modules():
     m.runcards = sym_module("eko.io.runcards")
     m.msbar = sym_module("eko.msbar_masses")
     m.interp = sym_module("eko.interpolation")
+    m.apply = sym_module("ekobox.apply")
     XG.__eq__ = m.interp.XGrid.__eq__
     import eko.couplings as real_couplings
 
@@ -257,7 +259,8 @@ def _validate(log, m, nfs):
 def case_evolve(log, nfs, target, shuffle, members, alias=None, nx=2):
     """evolve_pdfs end to end on stand-ins; target: None | number of explicit target-grid points"""
     m = _modules()
-    log.encode(m.evol.evolve_pdfs, m.evol.collect_blocks, m.utils.regroup_evolgrid, m.genpdf.generate_block, m.info.build, m.info.build_alphas)
+    log.encode(m.evol.evolve_pdfs, m.evol.collect_blocks, m.utils.regroup_evolgrid, m.genpdf.generate_block, m.info.build, m.info.build_alphas,
+               m.apply.apply_pdf, m.apply.apply_pdf_flavor, m.apply.apply_grids, m.apply.rotate_result)
     rk = {"nfs": list(nfs), "target": target, "members": members, "alias": alias, "nx": nx}
     seed0 = log.rng.randint(0, 10**9)
     outcomes = {}
@@ -280,11 +283,41 @@ def case_evolve(log, nfs, target, shuffle, members, alias=None, nx=2):
         if shuffle:
             random.Random(seed0).shuffle(evolgrid)
         dumped = []
-        applied = []
+        applied = []  # target grids handed to ekobox.apply by evolve_pdfs
+        # --- stand-in EKO with real content: symbolic operators acting on the flavours IN (other columns zero), every view of
+        #     the initial scale consistent: mu20 == operator_card.mu20 == operator_card.init[0]**2 == metadata.origin[0]
+        muI = SR.var("muI")
+        assume(muI, ">0")
+        op.init = (muI, 4)
+        IN = [21, 1, 2]
+        Os = []
+        for k in range(len(evolgrid)):
+            O = rnp.zeros((14, nx, 14, nx), dtype=object)
+            for a in range(14):
+                for j in range(nx):
+                    for b in IN:
+                        for kk in range(nx):
+                            O[a, j, PIDS.index(b), kk] = SR.var("O%d_%d_%d_%d_%d" % (k, a, j, PIDS.index(b), kk))
+            Os.append(O)
 
         class FakeEKO:
             def __init__(self):
                 self.evolgrid = evolgrid
+                self.xgrid = op.xgrid
+                self.mu20 = muI * muI
+                self.operator_card = op
+                self.theory_card = th
+                self.metadata = _NS(origin=(self.mu20, 4), xgrid=op.xgrid)
+
+            def __iter__(self):
+                return iter(evolgrid)
+
+            def items(self):
+                for ep, O in zip(evolgrid, Os):
+                    yield ep, A.Elem(O, None)
+
+            def __getitem__(self, ep):
+                return A.Elem(Os[[id(e[0]) for e in evolgrid if e[1] == ep[1]].index(id(ep[0]))], None)
 
             def __enter__(self):
                 return self
@@ -296,20 +329,40 @@ def case_evolve(log, nfs, target, shuffle, members, alias=None, nx=2):
             def read(cls, path):
                 return cls()
 
-        def apply_pdf(eko, pdf, targetgrid=None, rotate_to_evolution_basis=False):
-            if targetgrid is not None:
-                n = len(list(targetgrid))  # the real apply_pdf iterates the target grid (TypeError for an XGrid)
-            else:
-                n = nx
-            applied.append((pdf, targetgrid))
-            vals = {ep: {pid: symarr("v%s_%d_%s" % (pdf, i, str(pid).replace("-", "m")), (n,)) for pid in PIDS} for i, ep in enumerate(eko.evolgrid)}
-            return vals, {}
+        eko_obj = FakeEKO()
+        X = symarr("X", (target, nx)) if target else None
+        A.FakeDispatcher.reset()
+        if target:
+            A.FakeDispatcher.register(eko_obj, ts, X)
+        m.apply.interpolation = _NS(InterpolatorDispatcher=A.FakeDispatcher)
+
+        class ApplyProxy:
+            """the real (shimmed) ekobox.apply; the target grid evolve_pdfs hands over is recorded"""
+
+            def __getattr__(self, name):
+                f = getattr(m.apply, name)
+                pos = {"apply_pdf": 2, "apply_pdf_flavor": 3, "rotate_result": 3}.get(name)
+                if pos is None:
+                    return f
+
+                def wrapped(*a, **kw):
+                    applied.append(kw["targetgrid"] if "targetgrid" in kw else (a[pos] if len(a) > pos else None))
+                    return f(*a, **kw)
+
+                return wrapped
 
         m.evol.EKO = FakeEKO
-        m.evol.apply = _NS(apply_pdf=apply_pdf)
+        m.evol.apply = ApplyProxy()
         m.evol.genpdf = _NS(generate_block=m.genpdf.generate_block, install_pdf=lambda name: None,
                             export=_NS(dump_set=lambda name, info, blocks: dumped.append((name, info, blocks))))
-        pdfs = ["p%d" % i for i in range(members)]
+        # scale-dependent symbolic PDFs: xf_m(pid, x_k, Q2) = F + G (Q2 - muI^2); member m lacks flavour IN[m] if m > 0
+        pdfs, present = [], []
+        for mi in range(members):
+            has = {pid: (pid in IN or pid == -3) and not (mi > 0 and pid == IN[mi % len(IN)]) for pid in PIDS}
+            F = {pid: [SR.var("F%d_%s_%d" % (mi, str(pid).replace("-", "m"), k)) for k in range(nx)] for pid in PIDS}
+            G = {pid: [SR.var("G%d_%s_%d" % (mi, str(pid).replace("-", "m"), k)) for k in range(nx)] for pid in PIDS}
+            pdfs.append(A.SymPDF(eko_obj, has, F, G))
+            present.append(has)
         # expected verdict of the overlap check, from the block structure
         by_nf = {}
         for mu, nf in zip(mus, nfs):
@@ -336,14 +389,16 @@ def case_evolve(log, nfs, target, shuffle, members, alias=None, nx=2):
             return
         v = S.prove_formula(z3.Not(zover), "no ValueError only if the Q ranges of consecutive nf blocks do not overlap")
         decide(log, v, key="evolve_pdfs:overlap-check", replay=(MOD, "replay_evolve", dict(rk, what="overlap")), sampler=_sampler_mu)
-        ok = len(dumped) == 1 and dumped[0][0] == "Out" and len(dumped[0][2]) == members and [a[0] for a in applied] == pdfs
-        v = prove_concrete(ok, "one set written, one block list per member, every PDF applied once")
+        ok = len(dumped) == 1 and dumped[0][0] == "Out" and len(dumped[0][2]) == members and all(p.q2 and not p.bad for p in pdfs) and len(applied) >= 1
+        v = prove_concrete(ok, "one set written, one block list per member, every PDF sampled (on the nodes of the operator grid only)")
         decide(log, v, key="evolve_pdfs:members", replay=(MOD, "replay_evolve", dict(rk, what="run")), sampler=_sampler_mu)
         if not ok:
             return
         # the x nodes the evolved PDFs are delivered on: those handed to apply_pdf, or the EKO/card grid for None
+        v = prove_all_zero([q - muI * muI for p in pdfs for q in p.q2], "the initial PDFs are sampled at Q2 = mu0^2, the squared initial scale of the operator (mu0 symbolic)")
+        decide(log, v, key="evolve_pdfs:scale", replay=(MOD, "replay_evolve", dict(rk, what="run")), sampler=_sampler_mu)
         gdiffs = []
-        for _pdf, g in applied:
+        for g in applied:
             used = list(g) if g is not None else xs
             gdiffs += [SR(QONE)] if len(used) != len(wx) else [u - w for u, w in zip(used, wx)]
         v = prove_all_zero(gdiffs, "the PDFs are applied on the explicit target grid when one is given (also when it is close to the operator grid), else on the operator grid")
@@ -352,6 +407,23 @@ def case_evolve(log, nfs, target, shuffle, members, alias=None, nx=2):
         sorted_q2 = {nf: _sym_sorted([mu * mu for mu in by_nf[nf]]) for nf in keys}
         struct_ok = True
         diffs = []
+
+        def evolved(mi, k, a, i):
+            """(X . O_k . xf_mi(., mu0^2)/x)[pid a, written node i] by explicit loops"""
+            tot = SR(QZERO)
+            for j in range(nx):
+                w = X[i, j] if target else (1 if i == j else 0)
+                if isinstance(w, int) and w == 0:
+                    continue
+                c = SR(QZERO)
+                for b in IN:
+                    if not present[mi][b]:
+                        continue
+                    for kk in range(nx):
+                        c = c + Os[k][a, j, PIDS.index(b), kk] * pdfs[mi].F[b][kk] / xs[kk]
+                tot = tot + w * c
+            return tot
+
         for mi, blocks in enumerate(member_blocks):
             struct_ok = struct_ok and len(blocks) == len(keys)
             if not struct_ok:
@@ -372,13 +444,13 @@ def case_evolve(log, nfs, target, shuffle, members, alias=None, nx=2):
                             want = None
                             for k, (e2, enf) in enumerate(evolgrid):
                                 if enf == nf and (e2 - q2).is_zero():
-                                    want = x * SR.var("v%s_%d_%s_%d" % (pdfs[mi], k, str(pid).replace("-", "m"), i))
+                                    want = x * evolved(mi, k, a, i)
                             diffs.append(row[a] - want if want is not None else SR(QONE))
         v = prove_concrete(struct_ok, "per member one block per nf (ascending), each with the written x grid, the nf's Q^2 knots and the 14 pids")
         decide(log, v, key="collect_blocks:structure", replay=(MOD, "replay_evolve", dict(rk, what="run")), sampler=_sampler_mu)
         if not struct_ok:
             return
-        v = prove_all_zero(diffs, "block x grid == written grid, Q^2 knots ascending, data[x_i,Q_j][pid] == x_i * evolved[(Q_j^2,nf)][pid][i]")
+        v = prove_all_zero(diffs, "block x grid == written grid, Q^2 knots ascending, data[x_i,Q_j][pid] == x_i * (X . O_(Q_j^2,nf) . xf(., mu0^2)/x)[pid][i]: the applied evolved PDF of the input sampled at mu0^2")
         decide(log, v, key="collect_blocks:data", replay=(MOD, "replay_evolve", dict(rk, what="run")), sampler=_sampler_mu)
         # ranges against what is written
         wq = [q2 for nf in keys for q2 in sorted_q2[nf]]
@@ -727,7 +799,7 @@ def _real_cards(point, nfs, alias=None):
     overlap = any(max(by_nf[a]) > min(by_nf[b]) for a, b in zip(keys, keys[1:]))
     if any(len(set(v)) != len(v) for v in by_nf.values()):
         return None  # repeated knot inside one nf block
-    op.init = (1.0, 3)
+    op.init = (1.5, 3)  # mu0 != 1, so that mu0 and mu0^2 differ
     op.mugrid = list(zip(mus, nfs))
     op.xgrid = interpolation.XGrid([0.1, 0.5, 1.0])
     op.configs.interpolation_polynomial_degree = 1
@@ -781,7 +853,10 @@ class _ToyPDF:
         return pid != 6
 
     def xfxQ2(self, pid, x, q2):
-        return x ** 0.5 * (1 - x) ** 2 * (1 + 0.1 * abs(pid) + 0.3 * self.k) + 0.01 * self.k
+        import math
+
+        # depends on the scale it is asked at, as any real set does
+        return (x ** 0.5 * (1 - x) ** 2 * (1 + 0.1 * abs(pid) + 0.3 * self.k) + 0.01 * self.k) * (1 + 0.25 * math.log(q2))
 
 
 def _grid_from(point, prefix, n, default):
@@ -992,8 +1067,10 @@ def main():
                   "scale variation None / exponentiated / expanded; %s" % ("all 8 evolution methods" if thorough else "3 evolution methods")]
     chk.out_of_claim = ["text formatting and re-reading of data blocks (%.8e), YAML dump of the info file, LHAPDF itself", "round(.,4) of QMin/QMax and float() casts (stubbed as identity)",
                         "values of a_s (Couplings.a_s is uninterpreted; only the scales/nf it is asked at and the constructor arguments are compared)",
-                        "content of the evolved values (apply.apply_pdf is C43) and of the EKO archive (computed by managed.solve when no path is given)"]
-    chk.stubs = ["EKO.read -> in-memory object exposing evolgrid", "apply.apply_pdf -> returns symbolic evolved values per evolution point; iterates an explicit target grid like the real one",
+                        "the operators stored in the EKO archive (computed by managed.solve when no path is given); entries of the re-interpolation matrix (C34)"]
+    chk.stubs = ["EKO.read -> in-memory EKO with symbolic operators (columns of the flavours 21, 1, 2 symbolic, the others zero), xgrid, evolgrid, items(), and consistent views of the initial scale: mu20 == operator_card.mu20 == operator_card.init[0]^2 == metadata.origin[0] with mu0 symbolic",
+                 "ekobox.apply runs for real (shimmed) inside evolve_pdfs; InterpolatorDispatcher -> content-addressed symbolic matrix per (x nodes, degree, target nodes) as in C43",
+                 "initial PDFs -> scale-dependent symbolic PDFs xf(pid, x_k, Q2) = F + G (Q2 - mu0^2), flavours 21, 1, 2, -3 present (later members lack one)",
                  "genpdf.export.dump_set -> recorder (what would be written)", "Couplings -> recorder of constructor arguments, a_s uninterpreted",
                  "msbar_masses.compute (masses given away from their own scale) -> three uninterpreted squared masses; with m(m) given the real function runs",
                  "float / round in info_file -> identity on symbols"]
